@@ -15,7 +15,7 @@ def run():
     if not r['ok']:
         ck.violation('model:RxCfg', 'configuration model violates an invariant', vlib.tlc_error_summary(r['out'], 50))
     # (1) per-instruction and per-program results of the PORTABLE build against the same TLA+ oracle as the default build
-    isa = c05.record('portable', ['steps', 'mulgrid', 'fp', 'rcp'], ck, wd, 'pisa')
+    isa = c05.record('portable', ['steps', 'mulgrid', 'memops', 'fp', 'rcp'], ck, wd, 'pisa')
     res = vlib.validate_sharded('TraceIsa', 'TraceIsa.cfg', isa, 'c17isa', shards=16, timeout=3000)
     ck.add_traces('TraceIsa(portable)', res, 'portable build: instruction words decoded/executed by BytecodeMachine (generic vector structs, fesetround rounding, 32x32 mulh/smulh, shift rotates), IEEE ops through fenv, reciprocal')
     ck.reject('TraceIsa(portable)', res, lambda rj: 'portable:' + c05.key_of(rj))
